@@ -6,9 +6,14 @@ Data (JSON-able, so a case can be replayed from its record):
     ["L", item, ...]          list            ["AL"]   absent optional list
     ["M", [key, value], ...]  map             ["AM"]   absent optional map
     ["S", element, ...]       sequence (embedded as '@' ... ';')
+    ["P", element, ...]       plain statement  '%' SEQ ';'        | two alternatives that cannot be factorized:
+    ["N", name, element, ...] named statement  '%' WORD SEQ '.'   | the parser tries PLAIN first, consumes the
+                              name and all elements as one sequence, fails at '.', rolls back and enters
+                              the sequence again one token later (only in grammars built with stmts=True)
     ["R", element, ...]       row: a sequence that is directly the item of a list (only in lists whose item
                               symbol is a ProdSequence symbol); an empty row plays the part of an omitted item
-Expected normal form (what the statement says the default cleanup returns):
+Expected normal form (what the statement says the default cleanup returns; statements come back as
+("plain", elements) / ("named", name, elements)):
     atom -> str, None -> None, list -> list in source order, map -> dict (a repeated key keeps the
     last value), sequence -> tuple of the matched elements in order, absent container -> None.
 
@@ -105,8 +110,9 @@ M_DEFAULT = MOpt(True, True, None, False)
 class DataSpace:
     """All data values of a given size (number of nodes) and bounded depth, for given options."""
 
-    def __init__(self, lopt, mopt, max_depth, max_width):
+    def __init__(self, lopt, mopt, max_depth, max_width, stmts=False):
         self.l, self.m, self.max_depth, self.max_width = lopt, mopt, max_depth, max_width
+        self.stmts = stmts
         self._memo = {}
 
     def values(self, size, depth):
@@ -135,6 +141,10 @@ class DataSpace:
                     out.append(["M"] + [[k, v] for k, v in zip(keys, kids)])
             for kids in self._children(size - 1, depth - 1, allow_none=False):
                 out.append(["S"] + list(kids))
+                if self.stmts:
+                    out.append(["P"] + list(kids))
+                    for name in ATOMS:
+                        out.append(["N", name] + list(kids))
         self._memo[key] = out
         return out
 
@@ -184,6 +194,8 @@ def depth_of(v):
         return 1 + max([depth_of(x[1]) for x in v[1:]] or [0])
     if v[0] == "R":
         return max([depth_of(x) for x in v[1:]] or [0])
+    if v[0] == "N":
+        return 1 + max([depth_of(x) for x in v[2:]] or [0])
     return 1 + max([depth_of(x) for x in v[1:]] or [0])
 
 
@@ -201,15 +213,19 @@ def features_of(v, feats, inside=None):
     if k == "AM":
         feats.add("map:absent-optional")
         return
-    name = {"L": "list", "M": "map", "S": "seq", "R": "row"}[k]
+    name = {"L": "list", "M": "map", "S": "seq", "R": "row", "P": "plain-stmt", "N": "named-stmt"}[k]
     feats.add(name)
-    n = len(v) - 1
+    n = len(v) - (2 if k == "N" else 1)
+    if k == "N":
+        # the sequence of a named statement is entered a second time, one token later, after the roll-back
+        feats.add("seq:entered-after-rollback")
+        feats.add("seq:entered-after-rollback:len%s" % (n if n < 3 else "3+"))
     if k == "R" and n == 0:
         feats.add("list:omitted-item")
     feats.add(f"{name}:len{min(n, 3)}" if n < 3 else f"{name}:len3+")
     if inside is not None:
         feats.add(f"{name}-in-{inside}")
-    kids = [x[1] for x in v[1:]] if k == "M" else v[1:]
+    kids = [x[1] for x in v[1:]] if k == "M" else (v[2:] if k == "N" else v[1:])
     if k == "M":
         ks = [x[0] for x in v[1:]]
         if len(set(ks)) < len(ks):
@@ -252,6 +268,10 @@ def expected(v, first_wins=False, tail=None, empty_rows=None):
                     continue
                 d[key] = rec(val, depth + 1)
             return d
+        if k == "P":
+            return ("plain", tuple(rec(c, depth + 1) for c in x[1:]))
+        if k == "N":
+            return ("named", x[1], tuple(rec(c, depth + 1) for c in x[2:]))
         # "S" and "R": the matched elements in order
         return tuple(rec(c, depth + 1) for c in x[1:])
     return rec(v, 0)
@@ -282,7 +302,12 @@ def key_order_violation(v, got):
             if r is not None:
                 return r
         return None
-    for c, g in zip(v[1:], got):
+    pairs = zip(v[1:], got)
+    if v[0] == "P":
+        pairs = zip(v[1:], got[1])
+    elif v[0] == "N":
+        pairs = zip(v[2:], got[2])
+    for c, g in pairs:
         r = key_order_violation(c, g)
         if r is not None:
             return r
@@ -386,6 +411,18 @@ def render(v, lopt, mopt, fd_mode="none"):
                 t.append("}")
             if mopt.wrapped:
                 t.append(")")
+            return
+        if k == "P":
+            t.append("%")
+            for e in x[1:]:
+                rec(e, depth + 1)
+            t.append(";")
+            return
+        if k == "N":
+            t.extend(["%", x[1]])
+            for e in x[2:]:
+                rec(e, depth + 1)
+            t.append(".")
             return
         assert k == "S", x
         t.append("@")
@@ -504,6 +541,26 @@ def normalise(x, in_seq=False, rows=False):
         if not (seq.is_leaf() and isinstance(sv, list)):
             raise Shape("sequence-not-a-list-of-elements", repr(seq)[:160], in_seq)
         return tuple(normalise(e, "sequence", rows) for e in sv)
+    if names[0] == "%" and len(kids) >= 2:
+        # statement: '%' + the children of PLAIN / NAMED, directly or as one child node
+        body = kids[1:]
+        if len(body) == 1 and not body[0].is_leaf() and isinstance(body[0].value, list) and \
+                body[0].name in ("PLAIN", "NAMED", "STMT"):
+            body = body[0].value
+        bn = [c.name for c in body]
+
+        def elems(seq):
+            while (not seq.is_leaf() and isinstance(seq.value, list) and len(seq.value) == 1
+                   and _is_telem(seq.value[0])):
+                seq = seq.value[0]
+            if not (seq.is_leaf() and isinstance(seq.value, list) and all(_is_telem(e) for e in seq.value)):
+                raise Shape("sequence-not-a-list-of-elements", repr(seq)[:160], in_seq)
+            return tuple(normalise(e, "sequence", rows) for e in seq.value)
+        if len(body) == 2 and bn[1] == ";":
+            return ("plain", elems(body[0]))
+        if len(body) == 3 and bn[2] == ".":
+            return ("named", normalise(body[0], in_seq, rows), elems(body[1]))
+        raise Shape("unexpected-node", repr(x)[:200], in_seq)
     if x.name in ("LIST", "MAP") or names[0] in ("[", "{") or any("__" in nm for nm in names) or "__" in x.name:
         # a node of a template symbol (or of one of its helper symbols) that still has child nodes
         raise Shape("container-not-converted", repr(x)[:200], in_seq)
@@ -597,6 +654,10 @@ def selftest():
     # word -> word map (seeded/C05-a demo): {a: b}
     assert render(["M", ["a", "b"]], L, MOpt(True, True, None, False, val_same=True)).tokens == ["{", "a", ":", "b", "}"]
     assert "\x0c" in layout(["[", "a", "]"], "exotic") and layout_features(3, "exotic")
+    # statements (seeded/C05-w3a demo): "% name ." -> named statement without elements
+    assert render(["N", "a"], L, M).tokens == ["%", "a", "."] and expected(["N", "a"]) == ("named", "a", ())
+    assert render(["P", "a", ["L", "b"]], L, M).tokens == ["%", "a", "[", "b", "]", ";"]
+    assert expected(["N", "a", "b", ["L"]]) == ("named", "a", ("b", []))
     assert layout(["a", "b", ","], "tight") == "a b,"
     # "[a,,]" with nullable items and final delimiter allowed: items a, omitted; the final delimiter adds nothing
     r = render(["L", "a", None], L, M)
